@@ -161,7 +161,14 @@ func objects(w wld) (map[string]client.Object, []client.Object) {
 	add(kobj.GatewayClass("haproxy", pipeline.ControllerName))
 	add(kobj.GatewayClass("haproxy2", pipeline.ControllerName))
 	add(kobj.GatewayClass("other", "example.io/some-controller"))
-	class := map[string]string{"ours": "haproxy", "ours2": "haproxy2", "foreign": "other", "missing": "nosuch"}[w.Class]
+	class := map[string]string{"ours": "haproxy", "ours2": "haproxy2", "foreign": "other", "missing": "nosuch",
+		"own3": "haproxy3", "gone3": "haproxy3", "alien3": "haproxy3"}[w.Class]
+	switch w.Class {
+	case "own3":
+		add(kobj.GatewayClass("haproxy3", pipeline.ControllerName))
+	case "alien3":
+		add(kobj.GatewayClass("haproxy3", "example.io/some-controller"))
+	}
 	add(kobj.Gateway("g", "gw", class, []kobj.Listener{
 		mkListener("L1", 7001, w.L[0], "l1.local"), mkListener("L2", 7002, w.L[1], "l2.local")}))
 	open := listener{Host: "own", Kinds: "empty", From: "All"}
@@ -169,6 +176,9 @@ func objects(w wld) (map[string]client.Object, []client.Object) {
 	f1.Proto, f2.Proto = "HTTP", "TCP"
 	add(kobj.Gateway("g", "fgw", "other", []kobj.Listener{mkListener("L1", 7101, f1, "f1.local"), mkListener("L2", 7102, f2, "f2.local")}))
 	for _, ns := range []string{"g", "r"} {
+		// s8: a Service whose pods are not ready
+		add(kobj.Service(ns, "s8", nil, ":8080:8080"))
+		add(kobj.Endpoints(ns, "s8", nil, []string{epAddr(ns, 8, 1) + ":p"}, ":8080"))
 		for s := 1; s <= 3; s++ {
 			name := fmt.Sprintf("s%d", s)
 			// conflicting backend scoped annotations: the first backendRef of a rule wins
@@ -256,7 +266,7 @@ func observe(w *world.World, cur wld) (obs, error) {
 		used := 0
 		for _, br := range rt.Backs {
 			g := []int{}
-			for n := 1; n <= br.S && br.S != 9; n++ { // service s9 does not exist
+			for n := 1; n <= br.S && br.S < 8; n++ { // s8 has no ready endpoint, s9 does not exist
 				if wv, ok := sw[epAddr(rt.Ns, br.S, n)+":8080"]; ok {
 					g = append(g, wv)
 					used++
